@@ -324,12 +324,34 @@ def run(ctx):
             path = ctx.save_replay("c19-%s-genC-masked.json" % pname, json.dumps(art, indent=1))
             ctx.violation("generated C of %s differs across configurations beyond the module-path lines of F-genc-embeds-module-path" % pname, path)
 
+    # binding self-test (thorough): a corrupted copy of an accepted segment must be refused
+    if ctx.tier == "thorough":
+        bad_keys = {k for k, _ in rejected}
+        good = next((evs for k, evs in segments if k not in bad_keys and len(evs) > 6), None)
+        if good:
+            for what, mutate in (("sha of one observation changed", lambda e: dict(e, sha="0" * 64)),
+                                 ("two dimensions changed in one step", lambda e: dict(e, cfg=dict(e["cfg"], tmp="t2" if e["cfg"]["tmp"] == "t1" else "t1",
+                                                                                                  env="extra" if e["cfg"]["env"] == "none" else "none")))):
+                evs = [dict(e) for e in good]
+                evs[4] = mutate(evs[4])
+                f = os.path.join(ctx.scratch, "c19.selftest.ndjson")
+                with open(f, "w") as o:
+                    for e in evs:
+                        o.write(json.dumps(e) + "\n")
+                r = tlc(ctx, "DriverEnvTrace", cfg=tr_cfg, workers=1, env={"TRACE": f}, timeout=600)
+                tlc_runs += 1
+                if r.violated == "NotAccepted":
+                    raise InfraError("C19 binding self-test: DriverEnvTrace accepted a trace with %s" % what)
+                cov.setdefault("binding_selftests", []).append(dict(corruption=what, refused_at_event=max(0, r.distinct - 1)))
+
     nobs = sum(len(e) - 1 for _, e in segments)
-    distinct = len({(k[0], k[1], json.dumps(e["cfg"], sort_keys=True)) for k, evs in segments for e in evs[1:]})
+    # non-trivial: an observation that is compared with the artifact of its segment (everything but
+    # the first observation of each segment), counted once per (program, tool, configuration)
+    distinct = len({(k[0], k[1], json.dumps(e["cfg"], sort_keys=True)) for k, evs in segments for e in evs[2:]})
     cov.update(
         evaluations=nobs, distinct_nontrivial=distinct,
         rule="one observation = one tool run for one program in one configuration of a covering walk; distinct by (program, tool, configuration); "
-             "every configuration differs from the first one of its segment in at least one dimension or is a repeat (new pid, later time)",
+             "non-trivial = compared with the artifact fixed by the first observation of its segment (a different configuration, or a repeat: new pid, later time)",
         samples=[dict(walk=walks[0]["walk"], steps=[dict(act=s["act"], v=s["v"], cfg=s["cfg"]) for s in walks[0]["steps"]]),
                  dict(segment=list(segments[0][0]), events=segments[0][1][:4])],
         walks=len(walks), walk_steps=nsteps, configurations=len(configs), value_pairs_covered=pairs,
